@@ -570,11 +570,16 @@ def callable_env(forest, mod, interp, extra_env=None):
                 foreign[v.mod] = foreign.make(v.mod)
             return FuncVal(v.node, foreign[v.mod], interp)
         if depth < 3 and isinstance(v, tuple) and any(isinstance(x, (FuncRef, tuple, list, dict)) for x in v):
-            return tuple(deep(x, depth + 1) for x in v)
+            items = [deep(x, depth + 1) for x in v]
+            if all(a is b for a, b in zip(items, v)):
+                return v
+            return type(v)(*items) if hasattr(type(v), '_fields') else tuple(items)
         if depth < 3 and isinstance(v, list) and any(isinstance(x, (FuncRef, tuple, list, dict)) for x in v):
-            return [deep(x, depth + 1) for x in v]
-        if depth < 3 and isinstance(v, dict) and any(isinstance(x, (FuncRef, tuple, list, dict)) for x in v.values()):
-            return {k: deep(x, depth + 1) for k, x in v.items()}
+            items = [deep(x, depth + 1) for x in v]
+            return v if all(a is b for a, b in zip(items, v)) else items
+        if depth < 3 and type(v) is dict and any(isinstance(x, (FuncRef, tuple, list, dict)) for x in v.values()):
+            items = {k: deep(x, depth + 1) for k, x in v.items()}
+            return v if all(items[k] is v[k] for k in v) else items
         return v
     for k, v in list(genv.items()):
         if isinstance(v, (tuple, list, dict)):
